@@ -249,6 +249,7 @@ func (l *EventLoop) RunUntil(deadline time.Time, quiet func() bool) (reached boo
 func (w *World) ConvergeE(ns, name string, pendingChanges int) ConvergeResult {
 	w.Coop = true
 	w.tracef("--- event-driven convergence phase for %s/%s ---", ns, name)
+	w.forgetFailedPodBackoff(ns, name)
 	res := ConvergeResult{Resolution: "none"}
 	e := kit.GetEDS(w.S, ns, name)
 	if e == nil {
